@@ -59,6 +59,8 @@ pub fn random_path(rng: &mut StdRng, path_no: u16, max_len: u8, fancy: bool) -> 
             if rng.random_range(0..8) == 0 {
                 h.tos_rewrite = rng.random_range(1..=255);
             }
+            // a filtering router: Destination Unreachable from an intermediate hop
+            h.du = rng.random_range(0..14) == 0;
         }
         hops.push(h);
     }
@@ -186,6 +188,7 @@ pub fn gen_fault(seed: u64, n: usize) -> Vec<Scenario> {
     let mut rng = StdRng::seed_from_u64(seed ^ 0x5eed_0009);
     for sc in &mut v {
         sc.net.late_pct = 0;
+        sc.net.fail_cost_us = *pick(&mut rng, &[0, 0, 250, 900]);
         let nf = rng.random_range(1..=4);
         for _ in 0..nf {
             let at_send = rng.random_range(0..30);
@@ -206,6 +209,16 @@ pub fn gen_fault(seed: u64, n: usize) -> Vec<Scenario> {
                 op: op.into(),
                 kind: kind.into(),
             });
+        }
+        if sc.fam == 4 && rng.random_range(0..5) == 0 {
+            // an outage: every send of a stretch covering at least one whole round fails transiently
+            let (op, kind) = match (sc.proto.as_str(), sc.privileged) {
+                ("udp", false) => ("bind", "addrnotavail"),
+                ("tcp", _) => ("connect", "netunreach"),
+                _ => ("send_to", *pick(&mut rng, &["hostunreach", "netunreach"])),
+            };
+            let from = rng.random_range(1..40);
+            sc.faults.push(Fault { at_send: -1, from_send: from, until_send: from + rng.random_range(20..120), at_recv: -1, op: op.into(), kind: kind.into() });
         }
         if rng.random_range(0..5) == 0 {
             sc.faults.push(Fault {
